@@ -171,6 +171,7 @@ type World struct {
 	Harness    string // non-empty: the harness itself is in trouble (exit 2, never a violation)
 	SimSeconds float64
 	State      map[string]any // oracle scratch
+	SigExtra   string         // oracle-provided part of the abstract signature (distinctness measure)
 }
 
 func (w *World) Fail(sig, format string, a ...any) {
